@@ -40,10 +40,41 @@ def invalid_mutations(r, p, ng):
     ]
 
 
+EDIT_CHARS = "()[]{}|*+?\\^$-,0:."
+
+
+def edit_neighbourhood(r, p, limit):
+    """texts one edit away from a valid pattern: every prefix, single deletions, single insertions of a
+    metacharacter, the two bounds of a {n,m} swapped.  Whether each is in the grammar is decided by the model's
+    parser (proved to accept exactly the grammar: C07d.compile_iff_full), not guessed here."""
+    out = [p[:k] for k in range(len(p))]
+    out += [p[:k] + p[k + 1:] for k in range(len(p))]
+    out += [p[:k] + c + p[k:] for k in range(len(p) + 1) for c in EDIT_CHARS]
+    for m in re.finditer(r"\{(\d+),(\d+)\}", p):
+        out.append(p[:m.start()] + "{%s,%s}" % (m.group(2), m.group(1)) + p[m.end():])
+    out = sorted(set(out) - {p})
+    return out if len(out) <= limit else r.sample(out, limit)
+
+
+EDIT_SEEDS = ["(a*){1,2}b", "(a?){2,5}", "(a|){0,3}", "(){1,2}", "^{1,2}a", "a${0,3}", "[a-z-[aeiou]]x", "[a-[b]]+", "^[\\w-[\\d]]$", "[a-[b]]|c",
+              "([a-z-[m-p]])", "[^a-[b]]", "a{2,3}", "(ab){0,2}", "x[a-z]{10,12}", "(a{0}b{0})c", "x|a{0}b{0}", "(^*$?)a", "\\p{Lu}{1,2}", "(a)\\1{2,3}",
+              "(?:a|b)*?c", "[\\-a]", "[a--[b]]", "a|(b|(c|d))", "\\$\\^\\.", "(a)(b)\\2\\1"]
+
+
 def c07_streams(ctx):
     r = ctx.rnd
     gs = []
     n = ctx.scale(1200, 15000)
+    # one-edit neighbourhoods of valid patterns; expectation = the model's (proved) grammar decision
+    seeds = list(EDIT_SEEDS)
+    for _ in range(ctx.scale(40, 600)):
+        ast, p, alpha = gen_pattern(ctx, big_bounds=(r.random() < 0.2), maxgroups=3, alphabet="ab")
+        if len(p) <= 24:
+            seeds.append(p)
+    for p in seeds:
+        for q in edit_neighbourhood(r, p, ctx.scale(40, 400)):
+            d = "xs" if r.random() < 0.15 else "xp"
+            gs.append(Group([Case(q, "", "compile", dialect=d)], {"features": set(), "expect": "MODEL", "why": "one edit away from the valid pattern %r" % p}))
     for i in range(n):
         ast, p, alpha = gen_pattern(ctx, big_bounds=(r.random() < 0.1), maxgroups=r.choice([3, 12]), alphabet=r.choice(["abc", "ab-^", "a]b", "ab\n", "aé\U00010400"]))
         if r.random() < 0.25:
@@ -85,6 +116,15 @@ def c07_streams(ctx):
 def c07_oracle(ctx, g):
     a = g.impl[0]
     exp = g.meta["expect"]
+    if exp == "MODEL":
+        exp = g.model[0]
+        if exp not in ("OK", "ERR:Syntax"):
+            return []
+        ctx.hist["edit:" + exp] += 1
+        if a != exp:
+            what = "is in the grammar" if exp == "OK" else "is not in the grammar"
+            return [f"Regex::{'xsd' if g.cases[0].dialect == 'xs' else 'xpath'}({g.cases[0].pattern!r}) answered {a}; the pattern {what} (decided by the model's parser, which C07d.compile_iff_full proves equal to the grammar; {g.meta['why']})"]
+        return []
     ctx.hist[exp + "→" + a[:16]] += 1
     ctx.distinct.add((g.cases[0].pattern, g.cases[0].flags, g.cases[0].dialect))
     if exp == "OK" and a == "OK":
@@ -326,6 +366,22 @@ def c11_streams(ctx):
             s2 = "".join(swapc(c) if r.random() < 0.6 else c for c in s)
             cs = [Case(p, "i", "analyze", s), Case(p, "i", "analyze", s2), Case(p, "i", "analyze", s), Case(p, "", "is_match", s), Case(p, "i", "is_match", s)]
             gs.append(Group(cs, {"features": set(), "input": s, "ast": ast, "s2": s2, "p2": p, "case_sensitive_escape": False}))
+    # a quantified case-SENSITIVE class escape followed by a literal whose case counterpart is in the class: the repeat
+    # must give a character back to the (case-blind) literal; compared with the literal written in the other case
+    for _ in range(ctx.scale(150, 2000)):
+        alpha = r.choice(CASE_ALPHABETS[:5])
+        lo = [c for c in alpha if c.islower()] or ["a"]
+        a = r.choice(lo)
+        esc = r.choice(["\\p{Ll}", "\\p{Lu}", "\\P{Lu}", "[\\p{Ll}\\d]", "\\p{L}", "[\\p{Lu}1]"])
+        q = r.choice(["*", "+", "{1,3}", "*?", "+?"])
+        litc = r.choice([a, a.upper()])
+        pre, suf = r.choice(["", "^"]), r.choice(["", "$", "x"])
+        p = pre + esc + q + litc + suf
+        p2 = pre + esc + q + swapc(litc) + suf
+        ast = ("seq", [("lit", a)])          # not used by the span comparison
+        for s in [a * 2, a.upper() * 2, a + a.upper(), a.upper() + a + "x", a * 3 + "x", "1" + a]:
+            cs = [Case(p, "i", "analyze", s), Case(p, "i", "analyze", s), Case(p2, "i", "analyze", s), Case(p, "i", "is_match", s), Case(p, "i", "is_match", s)]
+            gs.append(Group(cs, {"features": set(), "input": s, "ast": ast, "s2": s, "p2": p2, "case_sensitive_escape": True}))
     # without i a literal matches only the identical characters
     for alpha in CASE_ALPHABETS[:5]:
         for _ in range(ctx.scale(30, 300)):
